@@ -30,6 +30,13 @@ def gen_history(rng, dynamic=True, big=False):
     fresh_mode = rng.random() < 0.5      # refresh normals before every pass (as the force phase of the solver does)
     for _ in range(nev):
         r = rng.random()
+        if rng.random() < 0.06:
+            # compaction at a chosen balance of free node and face slots: k collapses (each frees node and face slots), then j
+            # splits (each takes one node slot and two face slots back), then rebase(): free nodes without free faces, free faces
+            # without free nodes, both, neither
+            k = rng.choice([1, 1, 2, 3]); j = rng.choice([max(0, k - 1), k, k, k + 1, 2 * k])
+            ev += ["OP 1 %d" % rng.randrange(10 ** 6) for _ in range(k)] + ["OP 0 %d" % rng.randrange(10 ** 6) for _ in range(j)] + ["REBASE", "FRESH", "REFINE"]
+            continue
         if r < 0.30:
             ev.append("G %s %d" % (hx(rng.choice([0.02, 0.05, 0.1, 0.2, 0.4])), rng.randrange(1 << 30)))
         elif r < 0.38:
